@@ -10,6 +10,7 @@ import (
 	"sync"
 	"time"
 
+	simplefixgo "github.com/b2broker/simplefix-go"
 	"github.com/b2broker/simplefix-go/fix"
 	"github.com/b2broker/simplefix-go/session"
 	"github.com/b2broker/simplefix-go/storages/memory"
@@ -155,7 +156,7 @@ func judge(c *vk.Ctx, tr *tracker, b, e int, lastAtCall int, res rig.StepResult,
 
 func main() {
 	c := vk.Init("C10")
-	c.Rule("(1) EXHAUSTIVE: for K in 1..8 outbound messages of mixed kinds (Logon/Logon reply, application sends, Heartbeat replies to TestRequests, Rejects of damaged messages), both roles, classes fresh-objects and reused-object: every ResendRequest(b,e) with (b,e) in [0,K+2]^2 on a fresh session; first transmissions are recorded from Outgoing() as emitted and compared byte for byte. (2) random sessions with K up to 200 and up to 12 repeated/overlapping requests each. (3) Logon gap: counter store preset to c, Logon with 34=r, all (c,r) in [0,6]x[1,8], both roles: r>c+1 must draw a ResendRequest with 7=c+1; and the same at a second logon of one session (after its own Logout was answered, or after the peer's Logout), the second Logon skipping 0, 1 or 3 numbers. (3c) real time, N=1: ResendRequest(1,0) arriving while the session's own TestRequest is pending is answered with the stored messages, not rejected. (4) thorough: 3 goroutines send while requests are fed; retransmissions must be byte-identical, contiguous b..n with n between last-sent-at-call and last-sent-at-return. distinct = (role,class,K,b,e,traffic); non-trivial = request inside the sent range or e=0")
+	c.Rule("(1) EXHAUSTIVE: for K in 1..8 outbound messages of mixed kinds (Logon/Logon reply, application sends, Heartbeat replies to TestRequests, Rejects of damaged messages), both roles, classes fresh-objects and reused-object: every ResendRequest(b,e) with (b,e) in [0,K+2]^2 on a fresh session; first transmissions are recorded from Outgoing() as emitted and compared byte for byte. (2) random sessions with K up to 200 and up to 12 repeated/overlapping requests each; in every third one the application registers observers (outgoing all-types, outgoing for its message type, incoming all-types) before Session.Run and removes them after the first round. (3) Logon gap: counter store preset to c, Logon with 34=r, all (c,r) in [0,6]x[1,8], both roles: r>c+1 must draw a ResendRequest with 7=c+1; and the same at a second logon of one session (after its own Logout was answered, or after the peer's Logout), the second Logon skipping 0, 1 or 3 numbers. (3c) real time, N=1: ResendRequest(1,0) arriving while the session's own TestRequest is pending is answered with the stored messages, not rejected. (4) thorough: 3 goroutines send while requests are fed; retransmissions must be byte-identical, contiguous b..n with n between last-sent-at-call and last-sent-at-return. distinct = (role,class,K,b,e,traffic); non-trivial = request inside the sent range or e=0")
 	c.Assume("precondition: no outgoing handler refuses and the store does not fail (every assigned number was saved)")
 	type job struct {
 		role  rig.Role
@@ -228,7 +229,21 @@ func main() {
 		rr := c.Rand("c10-random", int64(i))
 		role := rig.Role(rr.Intn(2))
 		desc := fmt.Sprintf("%s fresh-objects random#%d", role, i)
-		r, err := rig.NewStepRig(rig.StepCfg{Role: role, HeartBtInt: 30, Limits: &session.IntLimits{Min: 5, Max: 60}})
+		// every third session: the application registers observers (outgoing for all types and for the type it sends,
+		// incoming for all types) once the session exists, and removes them after the first round of traffic with
+		// the identifiers it was given
+		observers := i%3 == 1
+		var obsIDs [3]int64
+		scfg := rig.StepCfg{Role: role, HeartBtInt: 30, Limits: &session.IntLimits{Min: 5, Max: 60}}
+		if observers {
+			desc += " application-observers-removed-after-first-round"
+			scfg.BeforeRun = func(h *simplefixgo.DefaultHandler, _ *session.Session) {
+				obsIDs[0] = h.HandleOutgoing(simplefixgo.AllMsgTypes, func(simplefixgo.SendingMessage) bool { return true })
+				obsIDs[1] = h.HandleOutgoing("Y", func(simplefixgo.SendingMessage) bool { return true })
+				obsIDs[2] = h.HandleIncoming(simplefixgo.AllMsgTypes, func([]byte) bool { return true })
+			}
+		}
+		r, err := rig.NewStepRig(scfg)
 		if err != nil {
 			return
 		}
@@ -242,6 +257,12 @@ func main() {
 		}
 		tr.observe(res.Outs)
 		for round := 0; round < 1+rr.Intn(12); round++ {
+			if observers && round == 1 {
+				_ = r.H.RemoveOutgoingHandler(simplefixgo.AllMsgTypes, obsIDs[0])
+				_ = r.H.RemoveOutgoingHandler("Y", obsIDs[1])
+				_ = r.H.RemoveIncomingHandler(simplefixgo.AllMsgTypes, obsIDs[2])
+				c.Count("sessions_whose_application_observers_were_removed", 1)
+			}
 			k := tr.last + 1 + rr.Intn(20)
 			if rr.Intn(8) == 0 {
 				k = tr.last + 100
